@@ -7,7 +7,7 @@ import re
 def plan(tier, seed):
     J = lambda name, B=2, **p: {"id": f"C18:{name} {p} B={B}", "module": "vf.genjobs", "func": "gen_job", "params": dict(name=name, params=p, B=B)}  # noqa: E731
     jobs = [J("tsp", num_loc=3), J("cvrp", num_loc=3), J("cvrp", num_loc=3, capacity=10.0), J("cvrp", num_loc=3, capacity=12.5), J("op", num_loc=3, prize_type="unif"), J("op", num_loc=3, prize_type="const"),
-            J("pctsp", num_loc=3), J("pdp", num_loc=4), J("mtsp", num_loc=4), J("svrp", num_loc=3), J("atsp", num_loc=3), J("atsp", num_loc=3, tmat_class=False),
+            J("pctsp", num_loc=3), J("pdp", num_loc=4), J("mdcpdp", num_loc=4, num_depot=2), J("mdcpdp", num_loc=2, num_depot=3, depot_mode="single"), J("mtsp", num_loc=4), J("svrp", num_loc=3), J("atsp", num_loc=3), J("atsp", num_loc=3, tmat_class=False),
             J("smtwtp", num_job=3), J("ffsp", num_stage=2, num_machine=2, num_job=2), J("flp", num_loc=3, to_choose=2), J("mcp", num_items=3, num_sets=3, min_size=1, max_size=2, n_sets_to_choose=2),
             J("cvrptw", B=1, num_loc=2), J("mtvrp", num_loc=3, variant_preset="all"), J("mtvrp", num_loc=3, variant_preset="vrptw"), J("mtvrp", num_loc=3, variant_preset="ovrpbltw"), J("mtvrp", num_loc=3, variant_preset="single_feat"), J("mtvrp", num_loc=3, variant_preset="single_feat_otw"),
             J("fjsp", B=1, num_jobs=2, num_machines=2, min_ops_per_job=1, max_ops_per_job=2, min_processing_time=1, max_processing_time=3), J("fjsp", B=1, num_jobs=2, num_machines=2, min_ops_per_job=1, max_ops_per_job=2, same_mean_per_op=False), J("jssp", B=1, num_jobs=2, num_machines=2)]
